@@ -39,6 +39,31 @@ void ut_fatal(void) { abort(); }
 void ut_mem_exhausted(void) { abort(); }
 
 
+/* memcpy: TRUSTED over-approximation of memcpy(3) for n > 8 (exact for n <= 8).  CBMC's own model goes through two
+ * symbolic-size array copies, which made tcp_receive (64 KiB frame -> user buffer) undecidable in an hour.  This model
+ * checks that both regions are accessible, then makes the destination ARBITRARY except at offsets 0..7 and at the
+ * ghost offset xv_mc (any value, never assigned), where it holds the source bytes.  Real memcpy copies every byte,
+ * so every behaviour of memcpy is a behaviour of this model. */
+void *memcpy(void *dst, const void *src, size_t n)
+{
+    __CPROVER_assert(n == 0 || __CPROVER_r_ok(src, n), "memcpy source region readable");
+    __CPROVER_assert(n == 0 || __CPROVER_w_ok(dst, n), "memcpy destination region writeable");
+    __CPROVER_assert(n == 0 || !__CPROVER_same_object(dst, src) || (const char *)src + n <= (const char *)dst || (const char *)dst + n <= (const char *)src, "memcpy src/dst overlap");
+    const uint8_t *s_ = src; uint8_t *d_ = dst;
+    /* no loops here: DFCC cannot track a loop-local index of an un-unwound loop */
+#define XV_CP(i) if ((i) < n) d_[i] = s_[i]
+    if (n <= 8) {
+        XV_CP(0); XV_CP(1); XV_CP(2); XV_CP(3); XV_CP(4); XV_CP(5); XV_CP(6); XV_CP(7);
+        return dst;
+    }
+    uint8_t h0 = s_[0], h1 = s_[1], h2 = s_[2], h3 = s_[3], h4 = s_[4], h5 = s_[5], h6 = s_[6], h7 = s_[7];
+    _Bool g = xv_mc < n; uint8_t bg = g ? s_[xv_mc] : 0;
+    __CPROVER_havoc_slice(dst, n);
+    d_[0] = h0; d_[1] = h1; d_[2] = h2; d_[3] = h3; d_[4] = h4; d_[5] = h5; d_[6] = h6; d_[7] = h7;
+    if (g) d_[xv_mc] = bg;
+    return dst;
+}
+
 /* inet_ntop/inet_pton: TRUSTED, nondeterministic within the bounds of their buffers (textual IP syntax is glibc's) */
 #include <arpa/inet.h>
 const char *inet_ntop(int af, const void *src, char *dst, socklen_t size)
